@@ -57,7 +57,7 @@ GUARDS = {"First", "and", "or", "if"}
 
 def gen(ctx, i):
     for _ in range(40):
-        c = cgroup.gen_case(ctx.rng, backend=P.BACKENDS[i % 3], nevents=5, empty_bias=0.45)
+        c = cgroup.gen_case(ctx.rng, backend=P.BACKENDS[i % 3], nevents=5, empty_bias=0.45, guard_w=4)
         ops = set(qgen.ops_used(c.query))
         if ops & GUARDS or qgen.ops_used(c.query).get("Where", 0) >= 2:
             return c
